@@ -41,7 +41,7 @@ EXPLANATION = (
     "SimpleCookie/morsel; the validation loop over the literal (label, parameter) list is recognised and its regex is compiled to a DFA "
     "to decide that ';' is detected.  flush() and the sibling APIs are checked structurally on their CFGs."
 )
-NOT_DECIDED = "read-back equality of cookie values through http.cookies quoting and parse_cookie unquoting; http.cookies' own legality checks on names and attribute keys; browser behaviour"
+NOT_DECIDED = "exceptions raised implicitly after the cookie was stored (http.cookies rejecting an unknown attribute key, format_timestamp rejecting an expires value of the wrong type) - only explicit raise statements and calls of raising tornado helpers are ordered against the jar mutation; read-back equality of cookie values through http.cookies quoting and parse_cookie unquoting; http.cookies' own legality checks on names and attribute keys; browser behaviour"
 LEVEL_NOTE = "http.cookies.SimpleCookie/Morsel semantics (setitem reuses an existing morsel, OutputString(None) emits all attributes) are taken from the CPython documentation"
 
 WEB = "tornado/web.py"
